@@ -3,6 +3,7 @@ package main
 
 import (
 	"bytes"
+	"math"
 	"strings"
 
 	"github.com/bufbuild/protocompile/ast"
@@ -32,6 +33,8 @@ func lexCase(in map[string]any) map[string]any {
 				switch t.Kind {
 				case "int":
 					it["int"] = vhlib.Hx(bigBytes(t.Int))
+				case "float":
+					it["float"] = vhlib.Hx(bigBytes(math.Float64bits(t.Float)))
 				case "string":
 					it["str"] = vhlib.Hx(t.Str)
 				case "rune":
